@@ -26,12 +26,12 @@ CHECKS = {
     "C01": dict(
         cat="model_checking", ref="5.C01",
         technique="TLA+ Grid spec (tiler design + OnGrid oracle) model-checked by TLC; Gen_Grid points replayed on the real volume-to-precomputed; recorded conversions (store_chunk coordinates, decoded voxels) trace-validated with an exact-rational value map",
-        text="TLC proves the tiler design writes every voxel exactly once from the same coordinate with every write on-grid (sizes 1..5 x chunk sizes 1..4 per axis, 1-3 channels; the no-clamp deviation fails); the enumerated (size, chunk, channels) points and seeded tool-generated and sharded sub-process conversions (3-D, 4-D, RGB; all dtype pairs; header scaling, --ignore-scaling, --input-min/max, --mmap; deep/flat x gzip x raw/compressed_segmentation x sharded) are run through the real volume-to-precomputed, read back through a fresh accessor + PrecomputedIO, and judged by Trace_Grid (OnGrid, Unwritten, VoxelValue with an exact-rational Map, ConversionRaised, ExitCode).",
+        text="TLC proves the tiler design writes every voxel exactly once from the same coordinate with every write on-grid (sizes 1..5 x chunk sizes 1..4 per axis, 1-3 channels; the no-clamp deviation fails); the enumerated (size, chunk, channels) points and seeded tool-generated and sharded sub-process conversions (3-D, 4-D, RGB; all dtype pairs; header scaling, --ignore-scaling, --input-min/max, --mmap; deep/flat x gzip x raw/compressed_segmentation x sharded) are run through the real volume-to-precomputed, read back through a fresh accessor + PrecomputedIO, and judged by Trace_Grid (OnGrid, Unwritten, VoxelValue with an exact-rational Map, ConversionRaised, ExitCode). Directed classes: --ignore-scaling on every header class (slope only / intercept only / both; full load and --mmap), header scalings whose results need more than float32's 24-bit mantissa, float64 inputs up to 2^30.",
         note=TRUST + "; exact-arithmetic inputs only (integer/dyadic data and scalings); --input-max rescaling judged for uint8/uint16 targets; uint32/uint64 upper saturation left to C11; sharded outputs and compressed_segmentation use cubic chunks/blocks."),
     "C02": dict(
         cat="model_checking", ref="5.C02",
         technique="TLA+ oracle (WellFormed/CSegDecode written from the format text) + relational encoder model-checked by TLC; TLC-enumerated arrays replayed on the real encoder; real encode/decode cases trace-validated against the oracle",
-        text="TLC runs a relational compressed_segmentation encoder (any table order, sharing, placement, width, padding index) over every array of a bounded scope (chunks and blocks <= 2x2x2, 1-2 channels, uint32/uint64) and proves IsEncodingOf => WellFormed /\\ CSegDecode = array, and that the decoder automaton reads it back. Every real encoder output of the run is judged by the same oracle operators (a reader written from the format text, plus the package's own decoder): the TLC-enumerated scope plus seeded shapes 1..9, blocks 1..8 including non-cubic, every bit width 0..32, labels above 2^32 and 2^53, repeated tables.",
+        text="TLC runs a relational compressed_segmentation encoder (any table order, sharing, placement, width, padding index) over every array of a bounded scope (chunks and blocks <= 2x2x2, 1-2 channels, uint32/uint64) and proves IsEncodingOf => WellFormed /\\ CSegDecode = array, and that the decoder automaton reads it back. Every real encoder output of the run is judged by the same oracle operators (a reader written from the format text, plus the package's own decoder): the TLC-enumerated scope plus seeded shapes 1..9, blocks 1..8 including non-cubic, every bit width 0..32, labels above 2^32 and 2^53, repeated tables. Multi-step histories on ONE PrecomputedIO object (several compressed_segmentation scales with DIFFERENT block sizes, several chunks of equal shape): the stored bytes are judged under the block size the info announces and the arrays returned by read_chunk are recorded only after the last call (aliasing).",
         note=TRUST + "; padding voxels are unconstrained; the 32-bit index width is exercised by one 41^3-block case."),
     "C03": dict(
         cat="model_checking", ref="5.C03",
@@ -41,12 +41,12 @@ CHECKS = {
     "C06": dict(
         cat="model_checking", ref="5.C06",
         technique="TLA+ per-axis octant-assembly model (NumPy assignment semantics, provenance) model-checked by TLC; TLC-exported outcome classes and real-generator infos replayed on the real pyramid code with poisoned np.empty; level and provenance traces validated by the trace spec",
-        text="TLC explores the per-axis octant-assembly model (old sizes 1..40, old/new chunk in {1,2,4,8,16}, factor 1|2) and proves the outcome classes, Correct => level = global downscale (provenance and value level), the closed form and the 2-D factorisation; every class and infos from the real generator are run through the real compute_dyadic_scales twice with np.empty poisoned by two different patterns (3 downscaling methods, 1-3 channels, raw/compressed_segmentation, deep/flat/gzip/sharded) and each transition is judged by Trace_PyramidAssembly against the implementation's own downscaler applied to the whole stored previous level; provenance traces through recording reader/writer objects on coordinate-coded volumes.",
+        text="TLC explores the per-axis octant-assembly model (old sizes 1..40, old/new chunk in {1,2,4,8,16}, factor 1|2) and proves the outcome classes, Correct => level = global downscale (provenance and value level), the closed form and the 2-D factorisation; every class and infos from the real generator are run through the real compute_dyadic_scales twice with np.empty poisoned by two different patterns (3 downscaling methods, 1-3 channels, raw/compressed_segmentation, deep/flat/gzip/sharded) and each transition is judged by Trace_PyramidAssembly against the implementation's own downscaler applied to the whole stored previous level; provenance traces through recording reader/writer objects on coordinate-coded volumes. Source-fault class (a chunk of the preceding scale missing or damaged before the step: oracle:FailsInsteadOfWrongData), the compute-scales command-line entry point with its options, and the 'auto' method with an outside value (TLC applies the documented selection rule; the reference downscaler is built without get_downscaler).",
         note=TRUST + "; silent corruption is a verdict only for infos the real generator produced or pairs processable by design; hand-made incompatible pairs may raise."),
     "C07": dict(
         cat="model_checking", ref="5.C07",
         technique="TLA+ oracle (OutShape, Stride, Majority, exact BlockMean half-even with edge/constant completion) and pairwise half-sum design model-checked by TLC; TLC-enumerated small arrays and seeded arrays run on the real downscalers and judged by the trace spec",
-        text="TLC proves that the pairwise half-sum design equals the exact BlockMean (half-even, edge/constant completion) and that InRange follows for all three methods on all small arrays (<= 3 per axis over {0,1,max}); all TLC-enumerated small-scope arrays and seeded arrays (shape 1..6 incl. odd and size-1 axes, 1-2 channels, the five Neuroglancer dtypes, type limits, all factor triples per method, four outside values) are run on the real downscalers and judged against OutShape, DType, InRange, BlockMean / Majority / Stride.",
+        text="TLC proves that the pairwise half-sum design equals the exact BlockMean (half-even, edge/constant completion) and that InRange follows for all three methods on all small arrays (<= 3 per axis over {0,1,max}); all TLC-enumerated small-scope arrays and seeded arrays (shape 1..6 incl. odd and size-1 axes, 1-2 channels, the five Neuroglancer dtypes, type limits, all factor triples per method, four outside values) are run on the real downscalers and judged against OutShape, DType, InRange, BlockMean / Majority / Stride. 'auto' selection through get_downscaler with options, a type-limit block for every integer dtype, out-of-type outside values (weaker reading: only shape/dtype/range judged), and a deviation class computed by TLC (near = float64 rounding distance, gross = wrap-around/overflow) used for known-finding matching only.",
         note=TRUST + "; float32 data restricted to dyadic values with exactly representable means; known finding: uint64 averaging above 2^50 (float64 work type)."),
     "C08": dict(
         cat="model_checking", ref="5.C08",
@@ -56,7 +56,7 @@ CHECKS = {
     "C09": dict(
         cat="model_checking", ref="5.C09",
         technique="TLA+ definition of the compressed Morton code and routing model-checked by TLC (injective, bounded, monotone, mask algebra at reduced width); real get_cmc / shard key / file name results judged by the TLC trace spec on bit sequences",
-        text="TLC proves on all grids <= 6^3 (+ lines to 64) that the specification's compressed Morton code is injective, bounded and monotone, and that the package's uint64 mask arithmetic (transcribed at width 8) equals the oracle routing for every bit triple with total 0..12; the real get_cmc is then executed on every position of those grids including the outer boundary, negative and off-lattice positions, on sampled grids up to 2^21 per axis, and the real shard/minishard keys and file names for triples with totals 0..70; TLC compares every result with the oracle.",
+        text="TLC proves on all grids <= 6^3 (+ lines to 64) that the specification's compressed Morton code is injective, bounded and monotone, and that the package's uint64 mask arithmetic (transcribed at width 8) equals the oracle routing for every bit triple with total 0..12; the real get_cmc is then executed on every position of those grids including the outer boundary, negative and off-lattice positions, on sampled grids up to 2^21 per axis, and the real shard/minishard keys and file names for triples with totals 0..70; TLC compares every result with the oracle. Off-lattice origins on one, two and three axes at once; routing is also judged on the ShardSpec objects the accessors build from an info file (writer path and reader path).",
         note=TRUST + "; only integer coordinates are offered."),
     "C10": dict(
         cat="model_checking", ref="5.C10",
@@ -81,27 +81,27 @@ CHECKS = {
     "C14": dict(
         cat="model_checking", ref="5.C14",
         technique="TLA+ model of the HTTP client request sequence x server fault behaviours model-checked by TLC; TLC-exported fault schedules replayed against a loopback server implementing the documented serving rules; fetch results validated by the trace spec against local reads",
-        text="TLC explores every placement of up to two server faults (404, 5xx, short/long/ignored range, dropped connection) over the request sequence of plain, .shard and legacy .index/.data fetches and proves the client design never returns wrong bytes (and that removing the length check or raise_for_status breaks this); every exported schedule is replayed through get_accessor_for_url against a Range-capable loopback server serving real datasets written by the real writers (URL spellings with/without trailing slash, precomputed:// prefix, empty path), and a fault-free sweep fetches every info and chunk position of many datasets over HTTP and locally; Trace_HttpRead judges WrongBytes, MissingNotError, FaultFreeFailed, PlainErrorClass, Dispatch.",
+        text="TLC explores every placement of up to two server faults (404, 5xx, short/long/ignored range, dropped connection) over the request sequence of plain, .shard and legacy .index/.data fetches and proves the client design never returns wrong bytes (and that removing the length check or raise_for_status breaks this); every exported schedule is replayed through get_accessor_for_url against a Range-capable loopback server serving real datasets written by the real writers (URL spellings with/without trailing slash, precomputed:// prefix, empty path), and a fault-free sweep fetches every info and chunk position of many datasets over HTTP and locally; Trace_HttpRead judges WrongBytes, MissingNotError, FaultFreeFailed, PlainErrorClass, Dispatch. Multi-scale sharded datasets are read through ONE HTTP accessor in interleaved order (per-scale reader state must not leak).",
         note=TRUST + "; the loopback server is the environment model of docs/serving-data.rst (flat->deep rewrite, gzip_static, Range/HEAD); a never-stored chunk may be an error or zero bytes."),
     "C15": dict(
         cat="model_checking", ref="5.C15",
         technique="TLA+ Orientation spec (documentation-derived SrcIndex oracle + slice-window design with deviation switch) model-checked by TLC; real slices-to-precomputed conversions of provenance-coded stacks trace-validated voxel by voxel",
-        text="TLC proves on 48 codes x sizes <= 3x4x5 x chunk depths 1..6 that the documentation-derived SrcIndex is a bijection consistent with the letter semantics and that the slice-window design places every pixel exactly once (the 'minus1' stop deviation fails); real slices-to-precomputed runs for all 48 codes x slice-count classes (fewer than / equal to / multiple of / not a multiple of the chunk depth) x pixel types, PNG/TIFF, grey/RGB, 1-3 directories and storage options (incl. sharded sub-processes) are judged voxel by voxel and channel by channel by Trace_Orientation.",
+        text="TLC proves on 48 codes x sizes <= 3x4x5 x chunk depths 1..6 that the documentation-derived SrcIndex is a bijection consistent with the letter semantics and that the slice-window design places every pixel exactly once (the 'minus1' stop deviation fails); real slices-to-precomputed runs for all 48 codes x slice-count classes (fewer than / equal to / multiple of / not a multiple of the chunk depth) x pixel types, PNG/TIFF, grey/RGB, 1-3 directories and storage options (incl. sharded sub-processes) are judged voxel by voxel and channel by channel by Trace_Orientation. Empty (all-black) slices are part of the input space: whole chunks of zeros must still be written.",
         note=TRUST + "; provenance-coded stacks <= 5x5x7 voxels x 6 channels; wall-clock limit per conversion stands in for 'never hangs'."),
     "C16": dict(
         cat="model_checking", ref="5.C16",
         technique="TLA+ Affine spec (centre/corner identity, resolution = column norm, compact form round trip) model-checked by TLC; real --generate-info / nibabel_image_to_info output for rational affines re-encoded as exact rationals and judged by the trace spec",
-        text="TLC proves the centre/corner identity for the design formulas on every voxel for the 48 signed permutations (plus rational rotations and a Pythagorean shear) and that the probe voxels suffice (the 'plus' and 'none' half-shift deviations fail); the real volume-to-precomputed --generate-info and nibabel_image_to_info outputs for rational affines (signed permutations x anisotropic voxel sizes, rotations, shears, translations; 3-D/4-D/RGB; 10 stored dtypes; header scaling; sharding option strings) are re-encoded as exact rationals and judged (Size, Channels, DataType, Sharding, Resolution, Placement, NotRational); the compact URL form is round-tripped.",
+        text="TLC proves the centre/corner identity for the design formulas on every voxel for the 48 signed permutations (plus rational rotations and a Pythagorean shear) and that the probe voxels suffice (the 'plus' and 'none' half-shift deviations fail); the real volume-to-precomputed --generate-info and nibabel_image_to_info outputs for rational affines (signed permutations x anisotropic voxel sizes, rotations, shears, translations; 3-D/4-D/RGB; 10 stored dtypes; header scaling; sharding option strings) are re-encoded as exact rationals and judged (Size, Channels, DataType, Sharding, Resolution, Placement, NotRational); the compact URL form is round-tripped. Files whose header pixdim disagrees with the sform; four generations per case, two of them on one loaded image object; rerun histories of --generate-info on one destination (pair / transform only / info only present: RerunDescribesVolume, RerunRefusalKeepsPair).",
         note=TRUST + "; rational representatives only (irrational column norms are outside the decided domain); floats snapped to the unique rational with denominator <= 4096 within 1e-9."),
     "C17": dict(
         cat="model_checking", ref="5.C17",
         technique="TLA+ spec (Mesh: format/reader oracle, winding, mm->nm, VTK line grammar automaton, fragment-link tree) model-checked by TLC; TLC-enumerated reader inputs/round-trip/winding instances replayed on the real code; recorded real files, arrays, exceptions and directory trees trace-validated by Trace_Mesh",
-        text="TLC model-checks the mesh reader automaton against the format oracle on structurally enumerated inputs (declared count 0..3 and huge counts, every body length, boundary index values; every exit reachable), the writer layout/round trip on float32 bit patterns, and the winding identity on tetrahedra under all 48 signed permutation matrices plus shears and singular maps; the deviating switch positions (bound '>', struct.error on short header, no flip) are shown to violate. Every enumerated case is executed on the real reader/writer/affine transform, and seeded real runs (save->file->read, affine transforms with det >0/<0/=0, mesh-to-precomputed on nibabel GIfTI files incl. sub-processes, VTK export with 0-3 attribute sets, link-mesh-fragments trees, random/damaged byte strings) are re-encoded and judged clause by clause by the same oracle in TLC.",
+        text="TLC model-checks the mesh reader automaton against the format oracle on structurally enumerated inputs (declared count 0..3 and huge counts, every body length, boundary index values; every exit reachable), the writer layout/round trip on float32 bit patterns, and the winding identity on tetrahedra under all 48 signed permutation matrices plus shears and singular maps; the deviating switch positions (bound '>', struct.error on short header, no flip) are shown to violate. Every enumerated case is executed on the real reader/writer/affine transform, and seeded real runs (save->file->read, affine transforms with det >0/<0/=0, mesh-to-precomputed on nibabel GIfTI files incl. sub-processes, VTK export with 0-3 attribute sets, link-mesh-fragments trees, random/damaged byte strings) are re-encoded and judged clause by clause by the same oracle in TLC. Unit-change transforms (10^-6..10^6, both determinant signs): the winding rule is decided on the integer matrix, the scale travels as a rational.",
         note=TRUST + "; geometry uses integer/dyadic coordinates and matrices so IEEE arithmetic is exact; near-zero determinants with uncertain floating-point sign are not decided; gzip-stored files judged on decompressed content."),
     "C18": dict(
         cat="fault_enumeration", ref="5.C18",
         technique="TLA+ refinement of store operations into I/O steps with Fail/Crash actions model-checked by TLC; real operations re-run once per (I/O call, errno) and per crash point under an in-process interposer, every HTTP request faulted once; outcomes classified and judged by the TLC trace spec",
-        text="TLC enumerates every step x {failure, crash before, torn write} of the file-store and shard-close designs and proves the three clauses of the adopted reading (a failed step ends in an error or in a true postcondition; other names untouched; after a crash every chunk is Correct, Old, Absent or detectably Invalid - and shows that writing the shard index first would break this). On the real code a dry run under an interposer (open/write/read/seek/close/stat/mkdir/unlink below the library) lists the I/O calls of each scenario (file accessor deep/flat x gzip x raw/compressed_segmentation: new chunk, overwrite, fetch, info store/fetch/exists; sharded accessor in-memory/on-disk x raw/gzip: write session + close, fetch, file API), then one injected run per (call, plausible errno) and per crash point is made; a fresh accessor + PrecomputedIO reads every chunk afterwards and TLC classifies the results. HTTP: every single fault placement on plain, .shard and legacy fetches.",
+        text="TLC enumerates every step x {failure, crash before, torn write} of the file-store and shard-close designs and proves the three clauses of the adopted reading (a failed step ends in an error or in a true postcondition; other names untouched; after a crash every chunk is Correct, Old, Absent or detectably Invalid - and shows that writing the shard index first would break this). On the real code a dry run under an interposer (open/write/read/seek/close/stat/mkdir/unlink below the library) lists the I/O calls of each scenario (file accessor deep/flat x gzip x raw/compressed_segmentation: new chunk, overwrite, fetch, info store/fetch/exists; sharded accessor in-memory/on-disk x raw/gzip: write session + close, fetch, file API), then one injected run per (call, plausible errno) and per crash point is made; a fresh accessor + PrecomputedIO reads every chunk afterwards and TLC classifies the results. HTTP: every single fault placement on plain, .shard and legacy fetches. Command-line level: every writing tool (volume-to-precomputed incl. --generate-info, generate-scales-info, the all-in-one pyramid, slices plain/sharded, compute-scales, convert-chunks, mesh-to-precomputed, link-mesh-fragments) runs as a real sub-process under the interposer, exit phase included, with the dataset directory AND the tool's TMPDIR enumerated; in-process sharded sessions with one/two minishards and fully out-of-order stores; completeness of the enumeration itself is audited with strace (system calls on the enumerated directories vs the interposer log).",
         note=TRUST + "; crash model = prefix of the write sequence (last write possibly torn), directory entries persist; OS-level reordering and power-loss of unsynced data are not modelled; clause (1) counts OSError subclasses (incl. requests exceptions, ShardedIOError) and DataAccessError as I/O errors."),
     "C19": dict(
         cat="model_checking", ref="5.C19",
